@@ -23,8 +23,8 @@ DERIVED = [GENERICS, ["DerivedElement"]]
 
 HEADER = '''from __future__ import annotations
 import datetime
+import decimal as _decimal
 from dataclasses import dataclass, field
-from decimal import Decimal
 from enum import Enum
 from typing import Any, Optional
 from xml.etree.ElementTree import QName
@@ -83,7 +83,7 @@ def py_src(r):
         b = repr(bytes(r["v"]))
         return {"plain": b, "hex": f"XmlHexBinary({b})", "b64": f"XmlBase64Binary({b})"}[r["k"]]
     if t == "dec":
-        return "Decimal(%r)" % "".join(chr(c) for c in r["v"])
+        return "_decimal.Decimal(%r)" % "".join(chr(c) for c in r["v"])
     if t == "qname":
         return "QName(%r)" % "".join(chr(c) for c in r["v"])
     if t == "xml":
@@ -341,7 +341,8 @@ class World:
             if e["mod"] != c["mod"]:
                 continue
             if len(e["qual"]) == 1:
-                out.append((e, e["qual"][0]))
+                if e["qual"][0] not in [i["qual"][-1] for i in c["inner"]]:   # not shadowed in the class body
+                    out.append((e, e["qual"][0]))
             elif e["qual"][:-1] == c["qual"]:
                 out.append((e, e["qual"][-1]))      # inner enum of this very class: bare name in the class body
         return out
@@ -779,8 +780,8 @@ def run(ck: Check):
         wb, names = witness_batch()
         batches.append(wb)
         labels.append(names)
-        n_worlds = ck.n(14, 150)
-        per = ck.n(28, 60)
+        n_worlds = ck.n(40, 400)
+        per = ck.n(30, 50)
         for i in range(n_worlds):
             w = World(r, i)
             w.make_fields()
@@ -825,8 +826,7 @@ def run(ck: Check):
             items.append({"replay": replay, "res": res, "size": size_of(recipe), "w": bi})
             terms.append(f"(W{bi}, {cvalue(res['spec'])}, {cobs(res)})")
     ck.cov["evaluations"] = len(items)
-    alldefs = "\n".join(defs)
-
+    
     # the Coq witnesses of Proofs/PycodeRefuted.v are the objects just built on the real code
     if not ck.replay_file:
         specs = [res["spec"] for res in out[0]["cases"]]
@@ -839,9 +839,33 @@ def run(ck: Check):
             ck.failure("corr-witness", f"the refutation witnesses in Coq and the objects built by the harness differ ({verdict})",
                        {"pkg": batches[0]["pkg"], "modules": batches[0]["modules"], "recipe": batches[0]["cases"][0]})
 
-    def run_pred(pred, tag):
-        bad = coq_bad_indices(f"c18_{tag}", IMPORTS, alldefs, "ccase", pred, terms, shard=60)
-        return sorted((items[i] for i in bad), key=lambda it: it["size"])
+    # all predicates are evaluated in one pass per group of cases: the group's worlds and cases are
+    # parsed once (as definitions), the case list handed to coq_bad_indices is (predicate, case) pairs
+    PREDS = ["agree_repr", "agree_eval", "agree_veq", "oracle_guarded"] + [p for p, _ in CLASSES] + ["in_domain", "in_guard"]
+    GROUP = 48
+    groups = [list(range(i, min(i + GROUP, len(items)))) for i in range(0, len(items), GROUP)]
+
+    def eval_group(gi):
+        idxs = groups[gi]
+        worlds = sorted({items[i]["w"] for i in idxs})
+        gdefs = "\n".join(defs[w] for w in worlds)
+        gdefs += "\nDefinition group_cases : list ccase := [\n" + ";\n".join(terms[i] for i in idxs) + "]."
+        gdefs += "\nDefinition preds : list (ccase -> bool) := [" + "; ".join(PREDS) + "]."
+        check = ("fun p : nat * nat => match nth_error preds (fst p), nth_error group_cases (snd p) with "
+                 "| Some f, Some c => f c | _, _ => false end")
+        pairs = [f"({k}%nat, {j}%nat)" for k in range(len(PREDS)) for j in range(len(idxs))]
+        bad = coq_bad_indices(f"c18_g{gi}", IMPORTS, gdefs, "nat * nat", check, pairs, shard=len(pairs) + 1)
+        return [(PREDS[b // len(idxs)], idxs[b % len(idxs)]) for b in bad]
+
+    bad_by_pred = {p: [] for p in PREDS}
+    import concurrent.futures as cf
+    with cf.ThreadPoolExecutor(max_workers=14) as ex:
+        for res_g in ex.map(eval_group, range(len(groups))):
+            for pname, i in res_g:
+                bad_by_pred[pname].append(i)
+
+    def run_pred(pred, tag=None):
+        return sorted((items[i] for i in bad_by_pred[pred]), key=lambda it: it["size"])
 
     def text_of(it):
         return "".join(chr(c) for c in it["res"]["text"])
